@@ -404,7 +404,7 @@ type c35rec struct {
 	real     core.Value
 	plain    map[string]mval // present plain members
 	st       map[string]int
-	cached   map[string]bool // rule fields that hold a saved result (valid or not)
+	cached   map[string]bool // rule fields that may hold a saved result (valid or not)
 	obs      []*c35obs
 	readonly bool
 	name     string
@@ -464,6 +464,16 @@ func (w *c35world) touch(r *c35rec, f string, events *c35events) {
 	if was == stInvalid {
 		for g := range w.directReads(r, rd) {
 			w.touch(r, g, events)
+		}
+	} else {
+		// stMaybe: the implementation may or may not have evaluated the rule
+		// again; everything it would read may now hold a saved result
+		deps := map[string]bool{}
+		w.dynDeps(r, rd, deps)
+		for g := range deps {
+			if w.isRule(g) {
+				r.cached[g] = true
+			}
 		}
 	}
 }
@@ -787,7 +797,7 @@ func c35script(t *rapid.T, erec *ev.Rec, l *lang) {
 			route = "lang"
 		}
 		sr := rec.real.(*core.SuRecord)
-		weights := []int{26, 30, 6, 3, 4, 8, 8, 3, 1}
+		weights := []int{26, 30, 6, 3, 4, 8, 8, 3, 2}
 		// set, get, delete plain, delete rule, copy, invalidate, observer, remove observer, readonly
 		if rec.readonly {
 			weights = []int{0, 60, 0, 0, 10, 0, 0, 0, 0}
